@@ -8,6 +8,14 @@ Props/C03.lean has the per-call theorems about `killProcess` / `killLoop` / `kil
 every run of the core model from `initState cfg …` (any op list: requests over several watchers,
 hooks, exec failures, deaths at every kernel-call boundary, reloads, `kill` / `signal` requests, …):
 
+All of it holds for **every** list of worker behaviours, those the daemon is not permitted to signal included
+(`Behav.eperm` / `kidEperm`: the kernel refuses the daemon's `kill` with EPERM, psutil raises `AccessDenied`).  A refused
+signal is recorded in the log with the tag `"!"` (`Obs.sig p sg st "!"`): it is no delivery — the entries the theorems
+speak of are the delivered ones (`via = ""`), a refused SIGKILL needs no justification and a refused stop signal is no
+evidence `Began`.  A `kill_process` whose first signal is refused ends with `AccessDenied` before it marks its worker
+`stopping` (no loop is ever pending for it); one whose SIGKILL is refused ends with `AccessDenied` and leaves the flag set
+(finding F34) — no loop is pending then either, so the frame invariant and the uniqueness of the loop are untouched.
+
 * `C03_run_signal_invariant` — the invariant `SI` (Core/SigDefs.lean) holds in every reachable state;
 * `C03_run_pending_kill_loop` — **the frame invariant**: every suspended `kill_process` (a frame
   `Kont.killWait u p sig i polls`, or that continuation on the ready queue after its timer fired) has
@@ -145,7 +153,7 @@ theorem C03_run_escalation_preceded_by_stop_signal (cfg : List Watcher) (behavs 
 
 /-- the escalation sends nothing to a pid its watcher does not list (`send_signal` returns at once) -/
 theorem C03_escalation_nothing_to_unlisted (u p sg : Nat) (s : State) (h : ¬ Listed s u p) :
-    sendSignal u p sg s = (true, s) := sendSignal_unlisted u p sg s h
+    sendSignal u p sg s = (.ok, s) := sendSignal_unlisted u p sg s h
 
 /-- … nothing at all is logged once the daemon hangs … -/
 theorem C03_escalation_nothing_when_hanging (u p sg : Nat) (r : Bool) (s : State) (h : s.blocked = true) :
@@ -155,9 +163,9 @@ theorem C03_escalation_nothing_when_hanging (u p sg : Nat) (r : Bool) (s : State
 /-- … and nothing is sent — neither to the pid nor to any child — when the process is gone:
     `children()` raises `NoSuchProcess`, which `send_signal_process` swallows for the whole group -/
 theorem C03_escalation_nothing_when_gone (u p sg : Nat) (r : Bool) (s : State) (h : s.k.GoneIn p) :
-    sendSignalProcess u p sg r s = ((), (kChildren p r s).2) ∧ (sendSignalProcess u p sg r s).2.log = s.log := by
+    sendSignalProcess u p sg r s = (true, (kChildren p r s).2) ∧ (sendSignalProcess u p sg r s).2.log = s.log := by
   have hc : (kChildren p r s).1 = none := Kernel.children_gone s.k p r h
-  have he : sendSignalProcess u p sg r s = ((), (kChildren p r s).2) := by
+  have he : sendSignalProcess u p sg r s = (true, (kChildren p r s).2) := by
     rw [sendSignalProcess_eq]
     simp only [bind]
     rw [hc]
